@@ -71,7 +71,7 @@ def propagate(data, d, medium_index=None, illum_wavelen=None, cfsp=0,
     `holopy` is agnostic to units, and the propagation result will be
     correct as long as the distance and wavelength are in the same units.
     """
-    if np.isscalar(d) and d == 0:
+    if np.ndim(d) == 0 and d == 0:
         # Propagating no distance has no effect
         return data
 
